@@ -430,7 +430,8 @@ class IndexLevel:
             return False
 
         node = self
-        for k in key:
+        key_iter = iter(key)
+        for k in key_iter:
             if not node.index.__contains__(k):
                 return False
 
@@ -439,6 +440,9 @@ class IndexLevel:
                 continue
 
             node.index._loc_to_iloc(k)
+            # at a leaf: a key with further components is not a label of this hierarchy
+            for _ in key_iter:
+                return False
             return True # if above does not raise
 
         return False
